@@ -47,7 +47,6 @@ def run(tier, only=None):
     def gjob(x):
         uw = dict(gluechecks.UW)
         return ge.run(x["name"], x["cfile"], defs=x["defs"], unwind=20, unwindset=uw, timeout=x.get("timeout"))
-    rep.add(core.pmap(gjob, gq))
     # --- real lines in context: a concrete line followed by a skeleton line in one call ---
     eng = enc.EncEngine("C06", tier)
     drv = os.path.join(eng.wd, "alone.c")
@@ -64,7 +63,8 @@ def run(tier, only=None):
     sks = families.c06_context_families(quick, alone)
     if only:
         sks = [s for s in sks if fnmatch.fnmatch(s.name, only)]
-    rep.add(eng.run_family(sks))
+    # one pool: the API-layer queries (long) first, then the context pairs
+    rep.add(core.pmap_mixed([(gjob, x) for x in gq] + [(lambda sk: eng.run_family([sk])[0], sk) for sk in sks]))
     return rep.finish(
         {"symbolic_per_query": "API layer: program of up to K abstract lines (skip or instruction of arbitrary length and bytes), start offset, all 12 option combinations, arbitrary prior buffer contents, arbitrary split point at a line boundary. Context: a concrete first line (14 encoding classes) followed in the same call by a skeleton line with symbolic registers/numbers/options; the first line's bytes are those it yields alone (computed natively, identical under all options) and the second line decodes as written",
          "context_lines": families.CONTEXT_LINES, "context_queries": len(sks), "api_queries": [x["name"] for x in gq]},
